@@ -406,6 +406,11 @@ pub fn render_jax(f: &Facts, noise: &JaxNoise) -> JaxFiles {
                 } else {
                     obo.push_str(&format!("is_a: {} ! {}\n", hp(*p), pname));
                 }
+                // other tags between the is_a lines of a stanza (the tag order of a stanza is free)
+                if noise.extra_tags.len() >= 2 && (noise.extra_tags[1] as usize + pos) % 3 == 0 {
+                    obo.push_str(TAG_POOL[(noise.extra_tags[0] as usize + *p as usize) % TAG_POOL.len()]);
+                    obo.push('\n');
+                }
             }
         }
         if t.obsolete {
